@@ -711,11 +711,7 @@ func main() {
 		}
 		var div int64 = -1
 		ast.Inspect(af, func(n ast.Node) bool {
-			kv, ok := n.(*ast.KeyValueExpr)
-			if !ok || src(kv.Key) != "d" {
-				return true
-			}
-			be, ok := kv.Value.(*ast.BinaryExpr)
+			be, ok := n.(*ast.BinaryExpr)
 			if !ok || be.Op != token.ADD {
 				return true
 			}
@@ -876,31 +872,92 @@ func main() {
 	})
 	// processAcked switch on ackmsg.State
 	section("fact group 13", func() {
-		fd := svc.fn("process.go", "service", "processAcked")
-		sw := switchOn(svc, fd, "ackmsg.State")
-		var pubs, completes []int64
-		for _, c := range sw.Body.List {
-			cc := c.(*ast.CaseClause)
-			if cc.List == nil {
-				continue
-			}
-			var vs []int64
-			for _, e := range cc.List {
-				v, ok := svc.eval(e, 0)
-				if !ok {
-					fail("processAcked: case value not constant")
-				}
-				vs = append(vs, v)
-			}
-			if strings.Contains(src(cc), "onPublish") {
-				pubs = append(pubs, vs...)
-			} else {
-				completes = append(completes, vs...)
-			}
+		// the acknowledged states in which the stored PUBLISH is handed on: wherever in process.go onPublish is called
+		// under a condition on the State of an acknowledged entry - a clause of a switch on X.State, or an
+		// `if X.State == C (|| ...)` - that condition names them
+		af, ok := svc.files["process.go"]
+		if !ok {
+			fail("service/process.go not found")
 		}
-		emit("(* processAcked: states that hand the stored PUBLISH on / that only complete *)")
+		var pubs []int64
+		found := false
+		var stack []ast.Node
+		ast.Inspect(af, func(n ast.Node) bool {
+			if n == nil {
+				stack = stack[:len(stack)-1]
+				return true
+			}
+			stack = append(stack, n)
+			ce, ok := n.(*ast.CallExpr)
+			if !ok {
+				return true
+			}
+			se, ok := ce.Fun.(*ast.SelectorExpr)
+			if !ok || se.Sel.Name != "onPublish" {
+				return true
+			}
+			// innermost enclosing condition on a State
+			for i := len(stack) - 2; i >= 0; i-- {
+				switch st := stack[i].(type) {
+				case *ast.CaseClause:
+					if i > 1 {
+						if sw, ok := stack[i-2].(*ast.SwitchStmt); ok && sw.Tag != nil && strings.HasSuffix(src(sw.Tag), ".State") && st.List != nil {
+							for _, e := range st.List {
+								if v, ok := svc.eval(e, 0); ok {
+									pubs = append(pubs, v)
+									found = true
+								}
+							}
+							return true
+						}
+					}
+				case *ast.IfStmt:
+					// only if the call is in the then-branch
+					if i+1 < len(stack) && stack[i+1] == ast.Node(st.Body) {
+						var vals []int64
+						var walk func(e ast.Expr) bool
+						walk = func(e ast.Expr) bool {
+							if pe, ok := e.(*ast.ParenExpr); ok {
+								return walk(pe.X)
+							}
+							be, ok := e.(*ast.BinaryExpr)
+							if !ok {
+								return false
+							}
+							if be.Op == token.LOR {
+								return walk(be.X) && walk(be.Y)
+							}
+							x, y := be.X, be.Y
+							if strings.HasSuffix(src(y), ".State") {
+								x, y = y, x
+							}
+							if be.Op != token.EQL || !strings.HasSuffix(src(x), ".State") {
+								return false
+							}
+							v, ok := svc.eval(y, 0)
+							if ok {
+								vals = append(vals, v)
+							}
+							return ok
+						}
+						if walk(st.Cond) {
+							pubs = append(pubs, vals...)
+							found = true
+							return true
+						}
+					}
+				case *ast.FuncDecl:
+					return true
+				}
+			}
+			return true
+		})
+		if !found {
+			fail("process.go: no call of onPublish under a condition on the state of an acknowledged entry")
+		}
+		sort.Slice(pubs, func(i, j int) bool { return pubs[i] < pubs[j] })
+		emit("(* processAcked: states that hand the stored PUBLISH on *)")
 		emit("Definition acked_publish_states : list N := %s.", nlist(pubs))
-		emit("Definition acked_complete_states : list N := %s.", nlist(completes))
 	})
 	// newBuffer: how the constructor initialises the ring (the hypotheses of the theorems about the translated methods)
 	section("fact group 14", func() {
@@ -945,6 +1002,7 @@ func main() {
 		genLocks(map[string]*pkg{"service": svc, "topics": topics, "sessions": sess})
 	})
 	section("order of the teardown actions", func() { genStopOrder(svc) })
+	section("ring roles", func() { genRingRoles(svc) })
 
 	if emitTranslated(filepath.Join(filepath.Dir(outPath), "Translated.v"), msg, topics, sess, svc) {
 		fmt.Println("gentables: Translated.v updated")
